@@ -32,6 +32,7 @@ class FnSpec:
         self.loops = []           # [(anchor, [(lineno,text)], occurrence)]
         self.r6 = {}              # n -> [(lineno,text)]
         self.r6_optional = set()
+        self.optional = set()     # ids of hint sections (%loop? / %proof? / %ghost?) that are skipped when their anchor is gone
         self.proofs = []          # [(where, anchor, occ, [(lineno,text)])]
         self.stub = False
         self.trusted_note = None
@@ -149,12 +150,15 @@ def parse_spec(path):
                 raise Undecided("duplicate @fn %s at %s:%d" % (parts[1], path, lineno))
             u.fns[parts[1]] = cur_fn
             section = cur_fn.spec
-        elif s.startswith("%loop ") and cur_fn is not None:
-            m = re.match(r'%loop\s+"(.*)"(?:\s+#(\d+))?\s*$', s)
+        elif (s.startswith("%loop ") or s.startswith("%loop? ")) and cur_fn is not None:
+            m = re.match(r'%loop\??\s+"(.*)"(?:\s+#(-?\d+))?\s*$', s)
             if not m:
                 raise Undecided("bad %%loop at %s:%d" % (path, lineno))
             sec = []
             cur_fn.loops.append((m.group(1), sec, int(m.group(2) or 0)))
+            if s.startswith("%loop?"):
+                # optional: a function that no longer has this loop simply goes without the invariant
+                cur_fn.optional.add(id(sec))
             section = sec
         elif s.startswith("%loopghost") and cur_fn is not None:
             m = re.match(r'%loopghost\s+"(.*)"\s*$', s)
@@ -173,25 +177,29 @@ def parse_spec(path):
                 cur_fn.r6_optional.add(n)
             section = sec
         elif s.startswith("%proof") and cur_fn is not None:
-            m = re.match(r'%proof\s+(before|afterblock|afterstmt|after|start|inloop|endloop|end)(?:\s+"(.*)")?(?:\s+#(\d+))?\s*$', s)
+            m = re.match(r'%proof\??\s+(before|afterblock|afterstmt|after|start|inloop|endloop|end)(?:\s+"(.*)")?(?:\s+#(-?\d+))?\s*$', s)
             if not m:
                 raise Undecided("bad %%proof at %s:%d" % (path, lineno))
             sec = []
             cur_fn.proofs.append((m.group(1), m.group(2), int(m.group(3) or 0), sec, "proof!"))
+            if s.startswith("%proof?"):
+                cur_fn.optional.add(id(sec))
             section = sec
         elif s.startswith("%raw") and cur_fn is not None:
-            m = re.match(r'%raw\s+(before|after|start)(?:\s+"(.*)")?(?:\s+#(\d+))?\s*$', s)
+            m = re.match(r'%raw\s+(before|after|start)(?:\s+"(.*)")?(?:\s+#(-?\d+))?\s*$', s)
             if not m:
                 raise Undecided("bad %%raw at %s:%d" % (path, lineno))
             sec = []
             cur_fn.proofs.append((m.group(1), m.group(2), int(m.group(3) or 0), sec, None))
             section = sec
         elif s.startswith("%ghost") and cur_fn is not None:
-            m = re.match(r'%ghost\s+(before|afterblock|afterstmt|after|start|inloop|endloop|end)(?:\s+"(.*)")?(?:\s+#(\d+))?\s*$', s)
+            m = re.match(r'%ghost\??\s+(before|afterblock|afterstmt|after|start|inloop|endloop|end)(?:\s+"(.*)")?(?:\s+#(-?\d+))?\s*$', s)
             if not m:
                 raise Undecided("bad %%ghost at %s:%d" % (path, lineno))
             sec = []
             cur_fn.proofs.append((m.group(1), m.group(2), int(m.group(3) or 0), sec, "proof_decl!"))
+            if s.startswith("%ghost?"):
+                cur_fn.optional.add(id(sec))
             section = sec
         elif s.startswith("%rename") and cur_fn is not None:
             m = re.match(r"%rename\s+/(.*)/\s*->\s*/(.*)/\s*$", s)
@@ -375,7 +383,7 @@ def find_anchor(src_text, anchor, occ, what):
     rx = r"\s*".join(re.escape(t) for t in toks)
     # allow whitespace changes inside tokens around punctuation: normalise by regex on \s*
     ms = list(re.finditer(rx, src_text))
-    if len(ms) <= occ:
+    if len(ms) <= occ or -occ > len(ms):   # a negative ordinal counts from the last occurrence
         raise Undecided("anchor lost (%s): %r" % (what, anchor))
     return ms[occ].start(), ms[occ].end()
 
@@ -630,6 +638,9 @@ def fn_inserts(u, m, d, it, info, used_fns, probe_fn):
     loops = it.get("loops", [])
     for li, (anchor, sec, occ) in enumerate(fs.loops):
         cands = [l for l in loops if norm(anchor) in l["header"]]
+        if len(cands) <= occ and id(sec) in fs.optional:
+            info.setdefault("skipped_hints", []).append({"fn": full, "loop": anchor, "occ": occ})
+            continue
         if len(cands) <= occ:
             # the header text changed: fall back to the loop at the same position, provided the function still has
             # exactly as many loops as the sidecar annotates (so the pairing is unambiguous)
@@ -661,6 +672,16 @@ def fn_inserts(u, m, d, it, info, used_fns, probe_fn):
             if t.strip():
                 info["clauses"].append({"file": fs.specfile, "fn": full, "spec_line": lineno, "text": t.strip(), "props": clause_props(t, fs.props), "where": "loop " + anchor})
     for where, anchor, occ, sec, mac in fs.proofs:
+        if id(sec) in fs.optional:
+            try:
+                if where in ("inloop", "endloop"):
+                    if len([l for l in loops if norm(anchor) in l["header"]]) <= occ:
+                        raise Undecided("gone")
+                elif where not in ("start", "end"):
+                    find_anchor(body, anchor, occ, "probe")
+            except Undecided:
+                info.setdefault("skipped_hints", []).append({"fn": full, "hint": "%s %s" % (where, anchor), "occ": occ})
+                continue
         first = sec[0][0] if sec else fs.line
         if mac is None:
             ptxt = "\n\n" + spec_lines_to_text(sec) + "\n"
